@@ -75,6 +75,17 @@ TileCast(from, to) ==
    LET X == Vec(from, CastVals(from, to)) s == SemCast(X, to) IN
    TileLaw(LAMBDA ins : SemCast(ins[1], to), <<X>>, {1}) =>
       P(CaseRec("cast", "Cast", <<AI("to", OnnxCode(to))>>, <<LowerT(X)>>, LowerA(s), <<Tag(s), "tile_law", from \o "->" \o to>>) @@ [tile |-> TileField({1})])
+\* float values in the upper half of the unsigned 64-bit range: 2^63 is exact in float32 and float64 and fits a uint64 (its top bit)
+Pow2F32(e) == [c |-> "ord", n |-> (e + 127) * 8388608, d |-> 1]
+UpperHalfCastCases ==
+   /\ LET X == T("f32", <<3>>, <<Pow2F32(63), Pow2F32(20), Fin(7)>>) IN
+      P(CaseRec("cast", "Cast", <<AI("to", OnnxCode("u64"))>>, <<X>>, ValueOrError(<<T("u64", <<3>>, <<Sym(1, 0), Fin(1048576), Fin(7)>>)>>), <<"value_or_error", "upper_half_u64", "f32->u64">>))
+   /\ LET X == T("f64", <<2>>, <<<<0, 0, 0, 0, 0, 0, 224, 67>>, <<0, 0, 0, 0, 0, 0, 28, 64>>>>) IN      \* 2^63 and 7.0 as float64 byte images
+      P(CaseRec("cast", "Cast", <<AI("to", OnnxCode("u64"))>>, <<X>>, ValueOrError(<<T("u64", <<2>>, <<Sym(1, 0), Fin(7)>>)>>), <<"value_or_error", "upper_half_u64", "f64->u64">>))
+   /\ LET X == T("f32", <<>>, <<Pow2F32(63)>>) IN
+      P(CaseRec("cast", "Cast", <<AI("to", OnnxCode("u64"))>>, <<X>>, ValueOrError(<<T("u64", <<>>, <<Sym(1, 0)>>)>>), <<"value_or_error", "upper_half_u64", "scalar">>))
+   /\ LET X == T("f32", <<2>>, <<Pow2F32(31), Fin(3)>>) IN                                              \* 2^31: the top bit of a uint32
+      P(CaseRec("cast", "Cast", <<AI("to", OnnxCode("u32"))>>, <<X>>, ValueOrError(<<T("u32", <<2>>, <<Sym(1, 0), Fin(3)>>)>>), <<"value_or_error", "upper_half_u32", "f32->u32">>))
 \* 64-bit integers beyond the 53-bit mantissa of a float64, as little-endian byte images: 2^53+1, 2^62+3, 2^63-1, 2^53, 2^54+2^30+1.
 \* Between the two 64-bit integer types a value both can hold keeps its bit pattern exactly.
 WideInts == <<<<1, 0, 0, 0, 0, 0, 32, 0>>, <<3, 0, 0, 0, 0, 0, 0, 64>>, <<255, 255, 255, 255, 255, 255, 255, 127>>, <<0, 0, 0, 0, 0, 0, 32, 0>>,
@@ -104,7 +115,7 @@ Emit ==
    /\ CASE st.fam = "constant" -> ConstantCases
         [] st.fam = "cos" -> CosCases(st.shape)
         [] st.fam = "cosinvalid" -> CosInvalid
-        [] st.fam = "cast" -> CastCases(st.from, st.to) /\ (st.from = "i64" /\ st.to = "i64" => WideCastCases("i64", "i64"))
+        [] st.fam = "cast" -> CastCases(st.from, st.to) /\ (st.from = "i64" /\ st.to = "i64" => WideCastCases("i64", "i64") /\ UpperHalfCastCases)
                                /\ (<<st.from, st.to>> \in {<<"f32", "i64">>, <<"i64", "f32">>, <<"f32", "f64">>, <<"i32", "f32">>} => LongCast(st.from, st.to))
                                /\ (st.from \in {"f32", "i64", "u8", "f64"} /\ st.to \in {"f32", "i64", "i32", "u8"} => TileCast(st.from, st.to))
         [] st.fam = "castinvalid" -> CastInvalid(st.from)
